@@ -23,8 +23,15 @@ func apiOps() []apiOp {
 	return []apiOp{
 		{"Show", func(s tcell.Screen) { s.Show() }, true, false},
 		{"Sync", func(s tcell.Screen) { s.Sync() }, true, false},
-		{"SetContent", func(s tcell.Screen) { s.SetContent(1, 0, 'x', nil, st) }, true, false},
-		{"GetContent", func(s tcell.Screen) { s.GetContent(1, 0) }, true, false},
+		{"SetContent", func(s tcell.Screen) { s.SetContent(1, 0, 'x', []rune{0x0301}, st) }, true, false},
+		{"GetContent", func(s tcell.Screen) {
+			// the caller looks at the combining runes it was given
+			_, comb, _, _ := s.GetContent(1, 0)
+			n := rune(0)
+			for _, r := range comb {
+				n += r
+			}
+		}, true, false},
 		{"Fill", func(s tcell.Screen) { s.Fill('f', st) }, true, false},
 		{"Clear", func(s tcell.Screen) { s.Clear() }, true, false},
 		{"SetStyle", func(s tcell.Screen) { s.SetStyle(st) }, true, false},
@@ -192,6 +199,7 @@ func c10prog(ps string, res *result) func() {
 		// content with a non-palette colour that has not been drawn yet: the first Show of the
 		// program has to extend the colour cache
 		s.SetContent(0, 0, 'a', nil, tcell.StyleDefault.Foreground(tcell.NewRGBColor(1, 2, 3)))
+		s.SetContent(1, 0, 'e', []rune{0x0308}, tcell.StyleDefault) // the cell GetContent / SetContent work on has combining runes
 		run := func(name string, i int) {
 			spawn(name, func() {
 				defer func() {
